@@ -97,6 +97,24 @@ def classify(name, table):
     return None
 
 
+APPENDS = re.compile(r"= (?:std::vec::)?Vec::<[^\n]*?>::(?:push|extend|append|insert)\(|String::push_str\(|::write_fmt\(|::write_all\(|VecDeque::<[^\n]*?>::push_back\(")
+
+
+def derived_appenders(a):
+    """crate functions with a `&mut` receiver whose own body appends to a sequence / writes to a writer (one level deep): calling one of them on
+    something that outlives the loop is an ordered emission, like a direct push. Read off the MIR of the current tree."""
+    cached = getattr(a, "_appenders", None)
+    if cached is None:
+        cached = set()
+        for name, text in functions(a.mir):
+            head = text.split("\n", 1)[0]
+            if re.search(r"\(_1: &mut ", head) and "{closure" not in name and APPENDS.search(text):
+                cached.add(name.split("::")[-1])
+        cached -= {"next", "load", "seek_line"}
+        a._appenders = cached
+    return cached
+
+
 def analyse(a, name, side_len_le1=False, unroll=2):
     """symbolic execution of one site function; returns (ex, bad_terms, n_unordered_visits)"""
     def m_gbr(ex, argv):
@@ -112,7 +130,8 @@ def analyse(a, name, side_len_le1=False, unroll=2):
               "write_fmt": mirexec.m_result_unit, "start_record": mirexec.m_result_unit, "end_record": mirexec.m_result_unit,
               "now": lambda ex, av: ex.opq(), "elapsed": lambda ex, av: ex.opq(), "as_millis": lambda ex, av: ex.havoc("u128"),
               "default": lambda ex, av: ex.opq(), "insert_test_case": lambda ex, av: ("unit",)}
-    ex = a.exec(re.escape(name), models, log=tuple(SINKS), unroll=unroll, max_paths=60000)
+    sinks_all = SINKS | derived_appenders(a)
+    ex = a.exec(re.escape(name), models, log=tuple(sinks_all), unroll=unroll, max_paths=60000)
     bad, visits = [], 0
     keyn = [0]
     for p in ex.paths:
@@ -139,7 +158,7 @@ def analyse(a, name, side_len_le1=False, unroll=2):
                 end = min(j for j in idx if j > i0)
                 sinks = []
                 for j, e in calls_:
-                    if not (i0 < j < end) or e[1] not in SINKS or not e[2]:
+                    if not (i0 < j < end) or e[1] not in sinks_all or not e[2]:
                         continue
                     recv = e[2][0]
                     # a sink that outlives the iteration: its receiver existed before the first visit (or is not a local value at all)
@@ -767,6 +786,12 @@ def replay_determinism(a, runs=8):
         cmds = {}
         for fmt in ("json", "yaml", "sarif", "junit"):
             cmds[f"validate --structured -o {fmt}"] = ["validate", "-r", "r.guard", "-r", "r2.guard", "-d", "d.json", "--structured", "-o", fmt, "--show-summary", "none"]
+        # several FAILing data files in one run (copies under other names): per-file parts of the structured documents keep the given order
+        for k_ in range(2, 7):
+            open(os.path.join(d, f"d{k_}.json"), "w").write(DATA)
+        for fmt in ("json", "sarif", "junit"):
+            cmds[f"validate --structured -o {fmt} (six data files)"] = (["validate", "-r", "r.guard"] + [x for k_ in ("", 2, 3, 4, 5, 6) for x in ("-d", f"d{k_}.json")]
+                                                                          + ["--structured", "-o", fmt, "--show-summary", "none"])
         cmds["validate --structured -o json (key-case variants)"] = ["validate", "-r", "rk.guard", "-d", "dk.json", "--structured", "-o", "json", "--show-summary", "none"]
         cmds["validate -o json"] = ["validate", "-r", "r.guard", "-d", "d.json", "-o", "json", "--show-summary", "none"]
         cmds["validate -o yaml"] = ["validate", "-r", "r.guard", "-d", "d.json", "-o", "yaml", "--show-summary", "none"]
